@@ -117,6 +117,13 @@ int main(int argc, char ** argv)
     double dphi_d = 0, dphi_s = 0;
     const Eigen::VectorXd xd = smooth::solve_linear_ldlt(p.J, p.d, p.r, p.lambda, dphi_d);
     const Eigen::VectorXd xs = smooth::solve_linear_ldlt(Js, p.d, p.r, p.lambda, dphi_s);
+    {
+      // the optional dphi output does not influence the step
+      const Eigen::VectorXd xd0 = smooth::solve_linear_ldlt(p.J, p.d, p.r, p.lambda), xs0 = smooth::solve_linear_ldlt(Js, p.d, p.r, p.lambda);
+      const bool same = xd0.size() == xd.size() && xs0.size() == xs.size() && (xd0.array() == xd.array() || (xd0.array() != xd0.array() && xd.array() != xd.array())).all()
+                        && (xs0.array() == xs.array() || (xs0.array() != xs0.array() && xs.array() != xs.array())).all();
+      rep.require("ldlt.optional_dphi_does_not_change_dx", st, same, det);
+    }
     const Mat Hn = H;
     const L Hnorm = norm2(Hn);  // Frobenius norm bounds the 2-norm from above within sqrt(n)
     auto backward = [&](const Eigen::VectorXd & x) {
